@@ -62,7 +62,8 @@ ASSUMPTIONS = [
     "repo_working_dir / cwd are not inside a .git directory",
     "routing correspondence: a preset that takes over repo_working_dir receives an absolute one; listed paths have at most 64 "
     "components; a listed relative path is not a bare `.` (the work dir itself)",
-    "routing correspondence compares files that exist and were modified (git status reports only changes)",
+    "routing correspondence compares files that exist and were modified (git status reports only changes); dirty_files are not "
+    "modelled: an entry at the canonical location of a dirty_files key is checked by the oracle (innermost repository) only",
 ]
 
 PANIC_MARKERS = ("panicked at", "RUST_BACKTRACE")
@@ -1081,6 +1082,9 @@ def layout_case(args):
                 if os.path.isdir(a):
                     ldirs.append(os.path.realpath(a))
         res["listed_dirs"] = sorted(set(ldirs))          # a listed directory lists everything below it
+        # dirty_files are not modelled: a buffer is recorded under the canonical location of its key (a key spelled through a
+        # symlink lands on the real file) in the repository that contains it — the safety oracle above checks exactly that
+        res["dirty_reals"] = sorted(os.path.realpath(q) for q in unsaved if os.path.exists(q))
         res["tie_skip"] = ((rwd is not None and not os.path.isabs(rwd) and preset != "agent-v1")
                            or any(len(pieces(f)) > 64 or (f and not f.startswith("/") and not pieces(f)) for f in files or []))
         res["impl"] = sorted(impl)
@@ -1475,7 +1479,8 @@ def run(ctx):
                     nm = [n for n, sfx in roots.items() if root.endswith(sfx)]
                     m2.add((nm[0] if nm else root, q))
             impl = {(rp, q) for rp, q in impl
-                    if (rp, q) in m2 or not any(q == d or q.startswith(d.rstrip("/") + "/") for d in x["listed_dirs"])}
+                    if (rp, q) in m2 or not (q in x["dirty_reals"]
+                                             or any(q == d or q.startswith(d.rstrip("/") + "/") for d in x["listed_dirs"]))}
             okrec = (m2 == impl) if (x["files_given"] and not sa) else (m2 <= impl or not x["files_given"])
             if not okrec or st != x["rc"] or bool(pn) != x["panic"]:
                 lay_mis.append(f"case {x['idx']} ({key}): model records {sorted(m2)} status {st} panic {pn}; "
